@@ -97,16 +97,18 @@ type c19Gate struct {
 	mu       sync.Mutex
 	accepted int
 	open     int
+	streams  []*c19Stream // every connection accepted so far (server side)
 }
 
 type c19Stream struct {
 	net.Stream
-	g    *c19Gate
-	once sync.Once
+	g      *c19Gate
+	once   sync.Once
+	closed bool // under g.mu
 }
 
 func (s *c19Stream) Close() error {
-	s.once.Do(func() { s.g.mu.Lock(); s.g.open--; s.g.mu.Unlock() })
+	s.once.Do(func() { s.g.mu.Lock(); s.g.open--; s.closed = true; s.g.mu.Unlock() })
 	return s.Stream.Close()
 }
 
@@ -119,9 +121,11 @@ func newC19Gate(inner net.Listener, coord *c19Coord) *c19Gate {
 				close(g.ready)
 				return
 			}
+			w := &c19Stream{Stream: s, g: g}
 			g.mu.Lock()
 			g.accepted++
 			g.open++
+			g.streams = append(g.streams, w)
 			g.mu.Unlock()
 			rel := coord.gate()
 			coord.mu.Lock()
@@ -133,7 +137,7 @@ func newC19Gate(inner net.Listener, coord *c19Coord) *c19Gate {
 			}
 			go func() {
 				<-rel
-				g.ready <- &c19Stream{Stream: s, g: g}
+				g.ready <- w
 			}()
 		}
 	}()
@@ -579,7 +583,7 @@ func runC19(res *hx.Result, rng *hx.Rng, tier string, outdir string) {
 		}
 		scs = append(scs, sc)
 	}
-	cf := hx.NewCases(outdir, "C19", "From QV Require Import Session C19Run.", "mismatches cfg_obs cases", res, "cases", "scase")
+	cf := hx.NewCases(outdir, "C19", "From QV Require Import Session SessionLife C19Run.", "mismatches cfg_obs cases lcases", res, "cases", "scase", "lcases", "lcase")
 	cf.Extra = append(cf.Extra, fmt.Sprintf("Definition cfg_obs : cfg := {| runlock_after_lock := %s |}.", hx.Bool(defect)))
 	obs := make([]c19Obs, len(scs))
 	obs[0] = po
@@ -662,5 +666,7 @@ func runC19(res *hx.Result, rng *hx.Rng, tier string, outdir string) {
 		}
 		cf.Add("cases", c19Term(sc, o), desc)
 	}
+	// second part: lives of the pool (c19life.go)
+	runC19Lives(res, rng, tier, outdir, defect, cf)
 	cf.Flush()
 }
